@@ -470,11 +470,6 @@ impl V {
             let is_last = i + 1 == terms.len();
             self.flow.set((after_match, prov));
             let before = cur.clone();
-            if let Term::Block(_) = t {
-                if i > 0 && before.has_union() && matches!(&terms[i - 1], Term::Access(Src::Param | Src::Ripple, a) if !a.is_empty()) {
-                    return Err("block applied to a union-typed field of the parameter (open finding: its parameter becomes `never` after `cond =>`)".into());
-                }
-            }
             if let Term::Match(p) = t {
                 let maybe_nil = before.contains_nil() && !before.is_nil();
                 let field_access = i > 0 && matches!(&terms[i - 1], Term::Access(_, a) if !a.is_empty());
@@ -774,14 +769,6 @@ impl V {
             if !is_last {
                 if ty.is_nil() || ty.is_never() {
                     return Err("statically dead steps".into());
-                }
-                // open finding: a block whose parameter is a field of the enclosing parameter (`$.1 { … }`,
-                // `~.1, { … }`) of union type: the `=>` forward narrowing propagates to the parameter's source
-                // provenance `Field(Parameter, 1)`, which is resolved against the block's own scope and makes the
-                // block parameter `never` in the consequence (`… { =0x6b => ='bin }` answers nil,
-                // `… { =_ => =h h }` is rejected with VariableUndefined)
-                if ty.has_union() && matches!(c.terms.last(), Some(Term::Access(_, a)) if !a.is_empty()) && c.pat.is_none() {
-                    return Err("union-typed field access as a sequence step (open finding: a block parameter sourced from a field of the parameter becomes `never` after `cond =>`)".into());
                 }
                 env.settle(&pending);
                 env.kill_pending();
